@@ -35,10 +35,12 @@ type fakeMeta struct {
 	last Chunk
 }
 
-func (m *fakeMeta) RootID() uint32                           { return 1 }
-func (m *fakeMeta) TOCDigest() digest.Digest                 { return "" }
-func (m *fakeMeta) GetOffset(id uint32) (int64, error)       { return 0, nil }
-func (m *fakeMeta) GetAttr(id uint32) (metadata.Attr, error) { return metadata.Attr{Size: m.c.Fsize}, nil }
+func (m *fakeMeta) RootID() uint32                     { return 1 }
+func (m *fakeMeta) TOCDigest() digest.Digest           { return "" }
+func (m *fakeMeta) GetOffset(id uint32) (int64, error) { return 0, nil }
+func (m *fakeMeta) GetAttr(id uint32) (metadata.Attr, error) {
+	return metadata.Attr{Size: m.c.Fsize}, nil
+}
 func (m *fakeMeta) GetChild(pid uint32, base string) (uint32, metadata.Attr, error) {
 	return 0, metadata.Attr{}, fmt.Errorf("not found")
 }
@@ -88,7 +90,9 @@ type fakeCache struct {
 	hits []bool
 }
 
-func (c *fakeCache) Add(key string, opts ...cache.Option) (cache.Writer, error) { return nopWriter{}, nil }
+func (c *fakeCache) Add(key string, opts ...cache.Option) (cache.Writer, error) {
+	return nopWriter{}, nil
+}
 func (c *fakeCache) Get(key string, opts ...cache.Option) (cache.Reader, error) {
 	hit := false
 	if len(c.hits) > 0 {
